@@ -102,6 +102,17 @@ pub open spec fn str_cmp(a: Seq<char>, b: Seq<char>) -> core::cmp::Ordering {
 pub assume_specification [ <String as Ord>::cmp ] (a: &String, b: &String) -> (r: core::cmp::Ordering)
     ensures r == str_cmp(a@, b@);
 pub broadcast axiom fn ax_str_le_total(a: Seq<char>, b: Seq<char>) ensures #![trigger str_le(a, b)] str_le(a, b) || str_le(b, a);
+/// the derived `Ord for Addr` is that of the inner String
+impl PartialOrdSpecImpl for Addr {
+    open spec fn obeys_partial_cmp_spec() -> bool { true }
+    open spec fn partial_cmp_spec(&self, o: &Addr) -> Option<core::cmp::Ordering> { Some(str_cmp(self@, o@)) }
+}
+impl PartialOrd for Addr { #[verifier::external_body] fn partial_cmp(&self, o: &Addr) -> (r: Option<core::cmp::Ordering>) { unimplemented!() } }
+impl OrdSpecImpl for Addr {
+    open spec fn obeys_cmp_spec() -> bool { true }
+    open spec fn cmp_spec(&self, o: &Addr) -> core::cmp::Ordering { str_cmp(self@, o@) }
+}
+impl Ord for Addr { #[verifier::external_body] fn cmp(&self, o: &Addr) -> (r: core::cmp::Ordering) { unimplemented!() } }
 /// the comparison closure handed to `sort_by` is modelled as a function `sort_cmp(f)` of the two element values (ASSUMED: an
 /// `Fn(&T,&T) -> Ordering` closure without interior mutability is deterministic); each of its results satisfies the closure's contract
 pub uninterp spec fn sort_cmp<T, F>(f: F) -> spec_fn(T, T) -> core::cmp::Ordering;
